@@ -58,8 +58,11 @@ GWt(g, i, c, w2) ==
         lo == GMax2(4 * g[i] - h, 4 * c - w2)
         hi == GMin2(4 * g[i] + h, 4 * c + w2)
     IN  IF hi > lo THEN hi - lo ELSE 0
-RECURSIVE GSumTo(_, _)
-GSumTo(f, n) == IF n = 0 THEN 0 ELSE f[n] + GSumTo(f, n - 1)
+RECURSIVE GSumRange(_, _, _)
+GSumRange(f, a, b) == IF a > b THEN 0 ELSE f[b] + GSumRange(f, a, b - 1)
+\* sum of f[1..n] for f >= 0; only the window of non-zero entries is visited (long grids: shallow recursion)
+GSumTo(f, n) == LET NZ == {i \in 1..n : f[i] # 0} IN
+                IF NZ = {} THEN 0 ELSE GSumRange(f, GSetMin(NZ), GSetMax(NZ))
 GWts(g, c, w2)  == [i \in 1..Len(g) |-> GWt(g, i, c, w2)]
 GWtSum(g, c, w2) == GSumTo(GWts(g, c, w2), Len(g))
 \* binned value of spectrum f (integers, f[i] at g[i]) in bin (c, w2): <<num, den>>, den = 0 if no overlap
